@@ -534,6 +534,15 @@ Theorem c01_tri_rows_other_row : forall (A : Type) (dflt : A) N lm le (tri : nat
 Proof. exact tri_rows_other_row. Qed.
 Print Assumptions c01_tri_rows_other_row.
 
+Example c01_tri_rows_rows_nonvacuous :
+  (1 < List.length [2; 0]%nat)%nat /\ (nth 1 [2; 0]%nat O < 3)%nat /\ (1 < 3)%nat /\ ~ In 1%nat [2; 0]%nat /\
+  nth (nth 1 [2; 0]%nat O) (tri_rows 3 [2; 0]%nat [10; 20] (fun i => Z.of_nat i + 100) 0) 0 = 20 /\
+  nth 1 (tri_rows 3 [2; 0]%nat [10; 20] (fun i => Z.of_nat i + 100) 0) 0 = 101.
+Proof.
+  split; [cbn; lia|]. split; [cbn; lia|]. split; [lia|]. split; [cbn; intros [H|[H|[]]]; discriminate|].
+  split; vm_compute; reflexivity.
+Qed.
+
 (* triangulate() AS THE SOURCE HAS IT (table regenerated on every run: `f_tri_returns gen_facts`, the expressions of its
    return statements): whatever a return statement with another expression would hand back (`alt`) under whatever guard
    (`g`), the caller gets the rows in sample order -- because there is no such statement.  An early exit that returns the
